@@ -1,11 +1,325 @@
-(** ENC2 - scratch restatement of the enc2 engine's lemmas (PLAIN, DELTA_*, BYTE_STREAM_SPLIT, dictionary) for
-    Print Assumptions; the statements are copied into Properties_C11.v / Properties_C12.v / Properties_C08.v. *)
+(** ENC2 - scratch restatement of the enc2 engine's lemmas (PLAIN, DELTA_BINARY_PACKED, DELTA_LENGTH_BYTE_ARRAY,
+    DELTA_BYTE_ARRAY, BYTE_STREAM_SPLIT, dictionary) for Print Assumptions; the statements are copied into
+    Properties_C11.v (round trips), Properties_C12.v (specification, both directions) and Properties_C08.v
+    (never-fault).  Values are bit patterns: u32v v := v < 2^32, u64v v := v < 2^64; [len] is the length as N. *)
 From Coq Require Import NArith ZArith List.
-From Carquet Require Import Base.Res Enc.DeltaBits.
+From Carquet Require Import Base.Res Enc.DeltaBits
+  Enc.PlainSpec Enc.PlainModel Enc.PlainProofs Enc.BssSpec Enc.BssModel Enc.BssProofs
+  Enc.DeltaSpec Enc.DeltaModel Enc.DeltaArith Enc.DeltaProofs Enc.DeltaLenModel Enc.DeltaStrModel Enc.DeltaStrProofs
+  Enc.DictModel Enc.DictProofs.
 Import ListNotations.
 Local Open Scope N_scope.
 
-(** bit packing at any width is inverted by unpacking (arithmetic definition shared by model and specification) *)
-Theorem bits_unpack_pack : forall w vs, Forall (fun v => v < 2 ^ w) vs -> unpack w (length vs) (pack w vs) = vs.
-Proof. exact unpack_pack. Qed.
-Print Assumptions bits_unpack_pack.
+(* ------------------------------------------------------------------------------------------ C11: PLAIN *)
+Theorem plain_roundtrip_boolean : forall vs, len vs < 2 ^ 63 ->
+  plain_decode_boolean (plain_encode_boolean vs) (len vs) = Ok (map truth vs, len (plain_encode_boolean vs)).
+Proof. exact PlainProofs.plain_roundtrip_boolean. Qed.
+Print Assumptions plain_roundtrip_boolean.
+
+Theorem plain_roundtrip_int32 : forall vs, Forall PlainProofs.u32v vs -> len (plain_encode_int32 vs) < 2 ^ 64 ->
+  plain_decode_int32 (plain_encode_int32 vs) (len vs) = Ok (vs, len (plain_encode_int32 vs)).
+Proof. exact PlainProofs.plain_roundtrip_int32. Qed.
+Print Assumptions plain_roundtrip_int32.
+
+Theorem plain_roundtrip_int64 : forall vs, Forall PlainProofs.u64v vs -> len (plain_encode_int64 vs) < 2 ^ 64 ->
+  plain_decode_int64 (plain_encode_int64 vs) (len vs) = Ok (vs, len (plain_encode_int64 vs)).
+Proof. exact PlainProofs.plain_roundtrip_int64. Qed.
+Print Assumptions plain_roundtrip_int64.
+
+Theorem plain_roundtrip_int96 : forall vs, Forall u96v vs -> len (plain_encode_int96 vs) < 2 ^ 64 ->
+  plain_decode_int96 (plain_encode_int96 vs) (len vs) = Ok (vs, len (plain_encode_int96 vs)).
+Proof. exact PlainProofs.plain_roundtrip_int96. Qed.
+Print Assumptions plain_roundtrip_int96.
+
+Theorem plain_roundtrip_float : forall vs, Forall PlainProofs.u32v vs -> len (plain_encode_float vs) < 2 ^ 64 ->
+  plain_decode_float (plain_encode_float vs) (len vs) = Ok (vs, len (plain_encode_float vs)).
+Proof. exact PlainProofs.plain_roundtrip_float. Qed.
+Print Assumptions plain_roundtrip_float.
+
+Theorem plain_roundtrip_double : forall vs, Forall PlainProofs.u64v vs -> len (plain_encode_double vs) < 2 ^ 64 ->
+  plain_decode_double (plain_encode_double vs) (len vs) = Ok (vs, len (plain_encode_double vs)).
+Proof. exact PlainProofs.plain_roundtrip_double. Qed.
+Print Assumptions plain_roundtrip_double.
+
+Theorem plain_roundtrip_byte_array : forall vs, Forall ba_ok vs ->
+  plain_decode_byte_array (plain_encode_byte_array vs) (len vs) = Ok (vs, len (plain_encode_byte_array vs)).
+Proof. exact PlainProofs.plain_roundtrip_byte_array. Qed.
+Print Assumptions plain_roundtrip_byte_array.
+
+Theorem plain_roundtrip_flba : forall raw count flen, flen <> 0 -> len raw = count * flen -> len raw < 2 ^ 64 ->
+  plain_decode_flba (plain_encode_flba raw) count flen = Ok (raw, len (plain_encode_flba raw)).
+Proof. exact PlainProofs.plain_roundtrip_flba. Qed.
+Print Assumptions plain_roundtrip_flba.
+
+(* ------------------------------------------------------------------------------------------ C11: DELTA_BINARY_PACKED *)
+Theorem delta64_roundtrip : forall vs, vs <> [] -> Forall DeltaProofs.u64v vs -> len vs < 2 ^ 31 ->
+  delta_decode_int64 (delta_bytes_int64 vs) (len vs) = Ok (vs, len (delta_bytes_int64 vs)).
+Proof. exact DeltaProofs.delta64_roundtrip. Qed.
+Print Assumptions delta64_roundtrip.
+
+Theorem delta32_roundtrip : forall vs, vs <> [] -> Forall DeltaProofs.u32v vs -> len vs < 2 ^ 31 ->
+  delta_decode_int32 (delta_bytes_int32 vs) (len vs) = Ok (vs, len (delta_bytes_int32 vs)).
+Proof. exact DeltaProofs.delta32_roundtrip. Qed.
+Print Assumptions delta32_roundtrip.
+
+(* the C entry points with their capacity checks write exactly [delta_bytes_*] whenever they report success *)
+Theorem delta_encode_int64_ok : forall vs cap bs, delta_encode_int64 vs cap = Ok bs -> bs = delta_bytes_int64 vs.
+Proof. exact DeltaProofs.delta_encode_int64_ok. Qed.
+Print Assumptions delta_encode_int64_ok.
+
+Theorem delta_encode_int32_ok : forall vs cap bs, delta_encode_int32 vs cap = Ok bs -> bs = delta_bytes_int32 vs.
+Proof. exact DeltaProofs.delta_encode_int32_ok. Qed.
+Print Assumptions delta_encode_int32_ok.
+
+(* zero values: as the C code behaves *)
+Theorem delta_empty_encode : forall cap, delta_encode_int64 [] cap = Ok [] /\ delta_encode_int32 [] cap = Ok [].
+Proof. exact DeltaProofs.delta_empty_encode. Qed.
+Print Assumptions delta_empty_encode.
+
+Theorem delta_empty_decode : delta_decode_int64 [] 0 = Err DeltaModel.ERR_DECODE /\ delta_decode_int32 [] 0 = Err DeltaModel.ERR_DECODE.
+Proof. exact DeltaProofs.delta_empty_decode. Qed.
+Print Assumptions delta_empty_decode.
+
+(* ------------------------------------------------------------------------------------------ C11: DELTA_LENGTH / DELTA_BYTE_ARRAY *)
+Theorem delta_length_roundtrip : forall vs bs, vs <> [] -> Forall str_ok vs -> len vs < 2 ^ 31 ->
+  delta_length_encode vs = Ok bs -> delta_length_decode bs (len vs) = Ok (vs, len bs).
+Proof. exact DeltaStrProofs.delta_length_roundtrip. Qed.
+Print Assumptions delta_length_roundtrip.
+
+Theorem delta_strings_roundtrip : forall vs bs work_cap, vs <> [] -> Forall str_ok vs -> len vs < 2 ^ 31 ->
+  len (concat vs) <= work_cap -> delta_strings_encode vs = Ok bs ->
+  delta_strings_decode bs (len vs) work_cap = Ok (vs, len bs).
+Proof. exact DeltaStrProofs.delta_strings_roundtrip. Qed.
+Print Assumptions delta_strings_roundtrip.
+
+Theorem delta_length_empty : forall data, delta_length_encode [] = Err DeltaLenModel.ERR_INVALID_ARGUMENT /\
+  delta_length_decode data 0 = Err DeltaLenModel.ERR_INVALID_ARGUMENT.
+Proof. exact DeltaStrProofs.delta_length_empty. Qed.
+Print Assumptions delta_length_empty.
+
+Theorem delta_strings_empty : forall data cap, delta_strings_encode [] = Err DeltaLenModel.ERR_INVALID_ARGUMENT /\
+  delta_strings_decode data 0 cap = Err DeltaLenModel.ERR_INVALID_ARGUMENT.
+Proof. exact DeltaStrProofs.delta_strings_empty. Qed.
+Print Assumptions delta_strings_empty.
+
+(* ------------------------------------------------------------------------------------------ C11: BYTE_STREAM_SPLIT *)
+Theorem bss_roundtrip_flba : forall k values count cap,
+  k <> 0 -> len values = count * k -> count * k < 2 ^ 64 -> count * k <= cap ->
+  exists enc, bss_encode k values count cap = Ok enc /\ len enc = count * k /\ bss_decode k enc count = Ok values.
+Proof. exact BssProofs.bss_roundtrip_flba. Qed.
+Print Assumptions bss_roundtrip_flba.
+
+Theorem bss_roundtrip_float : forall values count cap, len values = count * 4 -> count * 4 < 2 ^ 64 -> count * 4 <= cap ->
+  exists enc, bss_encode_float values count cap = Ok enc /\ len enc = count * 4 /\ bss_decode_float enc count = Ok values.
+Proof. exact BssProofs.bss_roundtrip_float. Qed.
+Print Assumptions bss_roundtrip_float.
+
+Theorem bss_roundtrip_double : forall values count cap, len values = count * 8 -> count * 8 < 2 ^ 64 -> count * 8 <= cap ->
+  exists enc, bss_encode_double values count cap = Ok enc /\ len enc = count * 8 /\ bss_decode_double enc count = Ok values.
+Proof. exact BssProofs.bss_roundtrip_double. Qed.
+Print Assumptions bss_roundtrip_double.
+
+(* ------------------------------------------------------------------------------------------ C11: dictionary *)
+(* relative to the index-stream codec (carquet_rle_encode_all / carquet_rle_decode_all): any pair with the round-trip
+   property; the RLE engine proves it for Enc/RleModel.v *)
+Theorem dict_roundtrip_fixed : forall (rle_encode : N -> list N -> list N) (rle_decode : N -> list N -> N -> res (list N)),
+  (forall w ix, w <= 32 -> Forall (fun i => i < 2 ^ w) ix -> rle_decode w (rle_encode w ix) (len ix) = Ok ix) ->
+  forall k vs, (0 < k)%nat -> Forall (fun v => v < 256 ^ N.of_nat k) vs -> len vs < 2 ^ 31 ->
+  let '(d, ixs) := dict_encode_fixed rle_encode k vs in
+  dict_decode_fixed rle_decode k d (Z.of_N (len d / N.of_nat k)) ixs (len vs) = Ok vs.
+Proof. exact DictProofs.dict_roundtrip_fixed. Qed.
+Print Assumptions dict_roundtrip_fixed.
+
+Theorem dict_roundtrip_int32 : forall (rle_encode : N -> list N -> list N) (rle_decode : N -> list N -> N -> res (list N)),
+  (forall w ix, w <= 32 -> Forall (fun i => i < 2 ^ w) ix -> rle_decode w (rle_encode w ix) (len ix) = Ok ix) ->
+  forall vs, Forall (fun v => v < 2 ^ 32) vs -> len vs < 2 ^ 31 ->
+  let '(d, ixs) := dict_encode_fixed rle_encode 4 vs in
+  dict_decode_fixed rle_decode 4 d (Z.of_N (len d / 4)) ixs (len vs) = Ok vs.
+Proof. exact DictProofs.dict_roundtrip_int32. Qed.
+Print Assumptions dict_roundtrip_int32.
+
+Theorem dict_roundtrip_int64 : forall (rle_encode : N -> list N -> list N) (rle_decode : N -> list N -> N -> res (list N)),
+  (forall w ix, w <= 32 -> Forall (fun i => i < 2 ^ w) ix -> rle_decode w (rle_encode w ix) (len ix) = Ok ix) ->
+  forall vs, Forall (fun v => v < 2 ^ 64) vs -> len vs < 2 ^ 31 ->
+  let '(d, ixs) := dict_encode_fixed rle_encode 8 vs in
+  dict_decode_fixed rle_decode 8 d (Z.of_N (len d / 8)) ixs (len vs) = Ok vs.
+Proof. exact DictProofs.dict_roundtrip_int64. Qed.
+Print Assumptions dict_roundtrip_int64.
+
+Theorem dict_roundtrip_float : forall (rle_encode : N -> list N -> list N) (rle_decode : N -> list N -> N -> res (list N)),
+  (forall w ix, w <= 32 -> Forall (fun i => i < 2 ^ w) ix -> rle_decode w (rle_encode w ix) (len ix) = Ok ix) ->
+  forall vs, Forall (fun v => v < 2 ^ 32) vs -> len vs < 2 ^ 31 ->
+  let '(d, ixs) := dict_encode_fixed rle_encode 4 vs in
+  dict_decode_fixed rle_decode 4 d (Z.of_N (len d / 4)) ixs (len vs) = Ok vs.
+Proof. exact DictProofs.dict_roundtrip_float. Qed.
+Print Assumptions dict_roundtrip_float.
+
+Theorem dict_roundtrip_double : forall (rle_encode : N -> list N -> list N) (rle_decode : N -> list N -> N -> res (list N)),
+  (forall w ix, w <= 32 -> Forall (fun i => i < 2 ^ w) ix -> rle_decode w (rle_encode w ix) (len ix) = Ok ix) ->
+  forall vs, Forall (fun v => v < 2 ^ 64) vs -> len vs < 2 ^ 31 ->
+  let '(d, ixs) := dict_encode_fixed rle_encode 8 vs in
+  dict_decode_fixed rle_decode 8 d (Z.of_N (len d / 8)) ixs (len vs) = Ok vs.
+Proof. exact DictProofs.dict_roundtrip_double. Qed.
+Print Assumptions dict_roundtrip_double.
+
+(* BYTE_ARRAY has no dictionary decoder in dictionary.c: the dictionary page is the PLAIN encoding of the distinct
+   values in first-occurrence order and every index selects its value *)
+Theorem dict_byte_array_sound : forall (rle_encode : N -> list N -> list N) vs,
+  let '(d, ix) := build vs [] in
+  fst (dict_encode_byte_array rle_encode vs) = plain_encode_byte_array d /\
+  Forall2 (fun v i => nth_error d (N.to_nat i) = Some v) vs ix /\ NoDup d.
+Proof. exact DictProofs.dict_byte_array_sound. Qed.
+Print Assumptions dict_byte_array_sound.
+
+(* ------------------------------------------------------------------------------------------ C12: PLAIN *)
+Theorem plain_fixed_encode_conforms : forall k vs, Forall (fun v => v < 256 ^ N.of_nat k) vs ->
+  spec_fixed_dec k (length vs) (enc_fixed k vs) = Some (vs, []).
+Proof. exact PlainProofs.plain_fixed_encode_conforms. Qed.
+Print Assumptions plain_fixed_encode_conforms.
+
+Theorem plain_fixed_decode_accepts : forall k n bs vs rest,
+  spec_fixed_dec k n bs = Some (vs, rest) -> N.of_nat k * N.of_nat n < 2 ^ 64 ->
+  dec_fixed k bs (N.of_nat n) = Ok (vs, N.of_nat k * N.of_nat n).
+Proof. exact PlainProofs.plain_fixed_decode_accepts. Qed.
+Print Assumptions plain_fixed_decode_accepts.
+
+Theorem plain_byte_array_encode_conforms : forall vs, Forall ba_ok vs ->
+  spec_ba_dec (length vs) (plain_encode_byte_array vs) = Some (vs, []).
+Proof. exact PlainProofs.plain_byte_array_encode_conforms. Qed.
+Print Assumptions plain_byte_array_encode_conforms.
+
+Theorem plain_byte_array_decode_accepts : forall n bs vs rest, spec_ba_dec n bs = Some (vs, rest) ->
+  plain_decode_byte_array bs (N.of_nat n) = Ok (vs, len bs - len rest).
+Proof. exact PlainProofs.plain_byte_array_decode_accepts. Qed.
+Print Assumptions plain_byte_array_decode_accepts.
+
+(* ------------------------------------------------------------------------------------------ C12: DELTA_BINARY_PACKED *)
+Theorem delta64_encode_conforms : forall vs, vs <> [] -> Forall DeltaProofs.u64v vs -> len vs < W64 ->
+  spec_delta_decode 64 (delta_bytes_int64 vs) = Some {| ds_block := 128; ds_minis := 4; ds_values := vs; ds_rest := [] |}.
+Proof. exact DeltaProofs.delta64_encode_conforms. Qed.
+Print Assumptions delta64_encode_conforms.
+
+Theorem delta32_encode_conforms : forall vs, vs <> [] -> Forall DeltaProofs.u32v vs -> len vs < W64 ->
+  spec_delta_decode 32 (delta_bytes_int32 vs) = Some {| ds_block := 128; ds_minis := 4; ds_values := vs; ds_rest := [] |}.
+Proof. exact DeltaProofs.delta32_encode_conforms. Qed.
+Print Assumptions delta32_encode_conforms.
+
+(* every stream the reference decoder accepts - any legal varints, min delta, widths, junk width bytes of unused
+   mini-blocks, padding - at the geometry carquet supports *)
+Theorem delta64_decode_accepts : forall bs st, bytes bs -> spec_delta_decode 64 bs = Some st ->
+  ds_block st = 128 -> ds_minis st = 4 -> len (ds_values st) < 2 ^ 31 ->
+  delta_decode_int64 bs (len (ds_values st)) = Ok (ds_values st, len bs - len (ds_rest st)).
+Proof. exact DeltaProofs.delta64_decode_accepts. Qed.
+Print Assumptions delta64_decode_accepts.
+
+Theorem delta32_decode_accepts : forall bs st, bytes bs -> spec_delta_decode 32 bs = Some st ->
+  ds_block st = 128 -> ds_minis st = 4 -> len (ds_values st) < 2 ^ 31 ->
+  delta_decode_int32 bs (len (ds_values st)) = Ok (ds_values st, len bs - len (ds_rest st)).
+Proof. exact DeltaProofs.delta32_decode_accepts. Qed.
+Print Assumptions delta32_decode_accepts.
+
+(* the other legal geometries are refused with DECODE, never mis-decoded *)
+Theorem delta_other_geometry_rejected : forall bs block minis r1 r2, bytes bs ->
+  read_uleb bs = Some (block, r1) -> read_uleb r1 = Some (minis, r2) ->
+  legal_geometry block minis = true -> block < 2 ^ 31 -> minis < 2 ^ 31 -> (block, minis) <> (128, 4) ->
+  delta_init bs = Err DeltaModel.ERR_DECODE.
+Proof. exact DeltaProofs.delta_other_geometry_rejected. Qed.
+Print Assumptions delta_other_geometry_rejected.
+
+(* ------------------------------------------------------------------------------------------ C12: DELTA_LENGTH_BYTE_ARRAY *)
+Theorem delta_length_encode_conforms : forall vs bs, vs <> [] -> Forall str_ok vs -> len vs < 2 ^ 31 ->
+  delta_length_encode vs = Ok bs -> spec_delta_length_decode bs = Some (vs, []).
+Proof. exact DeltaStrProofs.delta_length_encode_conforms. Qed.
+Print Assumptions delta_length_encode_conforms.
+
+Theorem delta_length_decode_accepts : forall bs vs rest, bytes bs -> vs <> [] -> len vs < 2 ^ 31 ->
+  spec_delta_length_decode bs = Some (vs, rest) ->
+  (exists st, spec_delta_decode 32 bs = Some st /\ ds_block st = 128 /\ ds_minis st = 4) ->
+  delta_length_decode bs (len vs) = Ok (vs, len bs - len rest).
+Proof. exact DeltaStrProofs.delta_length_decode_accepts. Qed.
+Print Assumptions delta_length_decode_accepts.
+
+(* ------------------------------------------------------------------------------------------ C08: never-fault *)
+Theorem plain_fixed_never_faults : forall k bs count, count * N.of_nat k < 2 ^ 64 -> forall f, dec_fixed k bs count <> Fault f.
+Proof. exact PlainProofs.plain_fixed_never_faults. Qed.
+Print Assumptions plain_fixed_never_faults.
+
+Theorem plain_fixed_result_size : forall k bs count vs c, dec_fixed k bs count = Ok (vs, c) ->
+  count * N.of_nat k < 2 ^ 64 -> len vs = count /\ c <= len bs.
+Proof. exact PlainProofs.plain_fixed_result_size. Qed.
+Print Assumptions plain_fixed_result_size.
+
+Theorem plain_int96_never_faults : forall bs count, count * 12 < 2 ^ 64 -> forall f, plain_decode_int96 bs count <> Fault f.
+Proof. exact PlainProofs.plain_int96_never_faults. Qed.
+Print Assumptions plain_int96_never_faults.
+
+Theorem plain_boolean_never_faults : forall bs count, count < 2 ^ 63 -> forall f, plain_decode_boolean bs count <> Fault f.
+Proof. exact PlainProofs.plain_boolean_never_faults. Qed.
+Print Assumptions plain_boolean_never_faults.
+
+Theorem plain_byte_array_never_faults : forall bs count f, plain_decode_byte_array bs count <> Fault f.
+Proof. exact PlainProofs.plain_byte_array_never_faults. Qed.
+Print Assumptions plain_byte_array_never_faults.
+
+Theorem plain_flba_never_faults : forall bs count flen f, plain_decode_flba bs count flen <> Fault f.
+Proof. exact PlainProofs.plain_flba_never_faults. Qed.
+Print Assumptions plain_flba_never_faults.
+
+Theorem delta64_decode_never_faults : forall data count f, delta_decode_int64 data count <> Fault f.
+Proof. exact DeltaProofs.delta64_decode_never_faults. Qed.
+Print Assumptions delta64_decode_never_faults.
+
+Theorem delta64_decode_result_size : forall data count vals c, delta_decode_int64 data count = Ok (vals, c) ->
+  len vals = count /\ c <= len data.
+Proof. exact DeltaProofs.delta64_decode_result_size. Qed.
+Print Assumptions delta64_decode_result_size.
+
+Theorem delta32_decode_never_faults : forall data count f, delta_decode_int32 data count <> Fault f.
+Proof. exact DeltaProofs.delta32_decode_never_faults. Qed.
+Print Assumptions delta32_decode_never_faults.
+
+Theorem delta32_decode_result_size : forall data count vals c, delta_decode_int32 data count = Ok (vals, c) ->
+  len vals = count /\ c <= len data.
+Proof. exact DeltaProofs.delta32_decode_result_size. Qed.
+Print Assumptions delta32_decode_result_size.
+
+Theorem delta_length_decode_never_faults : forall data count f, delta_length_decode data count <> Fault f.
+Proof. exact DeltaStrProofs.delta_length_decode_never_faults. Qed.
+Print Assumptions delta_length_decode_never_faults.
+
+Theorem delta_length_decode_result_size : forall data count ss c, delta_length_decode data count = Ok (ss, c) ->
+  len ss = count /\ c <= len data.
+Proof. exact DeltaStrProofs.delta_length_decode_result_size. Qed.
+Print Assumptions delta_length_decode_result_size.
+
+Theorem delta_strings_decode_never_faults : forall data count cap f, delta_strings_decode data count cap <> Fault f.
+Proof. exact DeltaStrProofs.delta_strings_decode_never_faults. Qed.
+Print Assumptions delta_strings_decode_never_faults.
+
+Theorem delta_strings_decode_result_size : forall data count cap ss c, delta_strings_decode data count cap = Ok (ss, c) ->
+  len ss <= count /\ c <= len data.
+Proof. exact DeltaStrProofs.delta_strings_decode_result_size. Qed.
+Print Assumptions delta_strings_decode_result_size.
+
+Theorem bss_decode_never_faults : forall k data count, count * k < 2 ^ 64 -> forall f, bss_decode k data count <> Fault f.
+Proof. exact BssProofs.bss_decode_never_faults. Qed.
+Print Assumptions bss_decode_never_faults.
+
+Theorem bss_decode_result_size : forall k data count out, bss_decode k data count = Ok out -> count * k < 2 ^ 64 ->
+  len out = count * k.
+Proof. exact BssProofs.bss_decode_result_size. Qed.
+Print Assumptions bss_decode_result_size.
+
+Theorem dict_decode_never_faults : forall (rle_decode : N -> list N -> N -> res (list N)),
+  (forall w bs max f, rle_decode w bs max <> Fault f) ->
+  (forall w bs max ix, rle_decode w bs max = Ok ix -> len ix <= max) ->
+  forall k dict dc indices out_count f, dict_decode_fixed rle_decode k dict dc indices out_count <> Fault f.
+Proof. exact DictProofs.dict_decode_never_faults. Qed.
+Print Assumptions dict_decode_never_faults.
+
+Theorem dict_decode_result_size : forall (rle_decode : N -> list N -> N -> res (list N)),
+  (forall w bs max f, rle_decode w bs max <> Fault f) ->
+  (forall w bs max ix, rle_decode w bs max = Ok ix -> len ix <= max) ->
+  forall k dict dc indices out_count vs, dict_decode_fixed rle_decode k dict dc indices out_count = Ok vs -> len vs <= out_count.
+Proof. exact DictProofs.dict_decode_result_size. Qed.
+Print Assumptions dict_decode_result_size.
